@@ -231,6 +231,20 @@ Proof.
   rewrite A. cbn [vsrc_val]. apply spec_ins_sorted_pos. exact SO.
 Qed.
 
+(* the case nc_insert_hint does not decide: the new item is linked where the input j says *)
+Lemma nc_insert_tie_ok c p kr vr j w : wfw w -> holds w (nids c) -> holdsb w (nblks c) ->
+  sorted (ckind c) = true -> In kr (dom (heap w)) -> In vr (dom (heap w)) ->
+  exists c' w', nc_insert_tie c p kr vr j w = Ok (c', w') /\
+     trans w w' (nids c) (nids c') (nblks c) (nblks c') /\ ckind c' = ckind c /\
+     nabs w' c' = insert_at (S (pos_idx p (length (citems c))) + j) (mk_anode (ckind c) (val w kr) (val w vr)) (nabs w c).
+Proof.
+  intros W H Hb SO Ik Iv.
+  destruct (hint_reads c w H SO) as (_ & Lsel & _).
+  unfold nc_insert_tie. run (rd_ok w kr Ik). run (rd_list_ok w _ Lsel).
+  destruct (nc_fresh_ok c (S (pos_idx p (length (citems c))) + j) kr (VRef vr) w W H Hb) as (c' & w' & E & T & K & A); auto.
+  exists c', w'. split; [exact E|]. split; [exact T|]. split; [exact K|]. exact A.
+Qed.
+
 (* ---------------------------------------------------------------------------------------- *)
 (* Map::insert(const Map&): the same instances are touched as by plain insertions             *)
 (* ---------------------------------------------------------------------------------------- *)
